@@ -9,7 +9,7 @@
 #
 import operator
 from collections.abc import Callable
-from decimal import Decimal
+from decimal import Decimal, DecimalException
 from typing import Any, cast, Union
 
 from elementpath.aliases import XPath2ParserType
@@ -101,7 +101,12 @@ class UntypedAtomic(AnyAtomicType):
                 if hasattr(other, 'make'):
                     return op(type(other).make(self.value, parser=self.parser), other)
                 else:
-                    return op(type(other)(self.value), other)
+                    try:
+                        value = type(other)(self.value)
+                    except DecimalException:
+                        msg = "{!r} cannot be cast to xs:decimal"
+                        raise ValueError(msg.format(self.value)) from None
+                    return op(value, other)
             case _:
                 return cast(bool, NotImplemented)
 
